@@ -3,7 +3,7 @@
    Model: coq/Model/Encap.v (common/encapsulation/encapsulation.go after the fix: commit
    "fix: read encapsulation length prefix bytes with io.ReadFull"). *)
 From Coq Require Import List NArith Bool Arith Lia.
-From Snow Require Import Lib.Wire Model.Encap Proofs.EncapSweep Proofs.EncapProofs.
+From Snow Require Import Lib.Wire Model.Encap Model.EncapFail Proofs.EncapSweep Proofs.EncapProofs Proofs.EncapFailProofs.
 Import ListNotations.
 Open Scope N_scope.
 
@@ -86,6 +86,17 @@ Proof. exact padding_invisible. Qed.
 Theorem C09_budget : forall n d, 0 < n -> blen d = max_data_for_size n ->
   exists w, write_data d = Some w /\ N.of_nat (length w) <= n.
 Proof. exact budget_respected. Qed.
+
+(* A reader that FAILS (returns a non-EOF error, alone or with its last bytes, after delivering the bytes s
+   under any fragmentation): the chunks returned before the failure are exactly the whole data chunks of s,
+   and the call that meets the failure returns the reader's error (ErrTooLong keeps precedence when the
+   delivered bytes already contain an over-long prefix).  Nothing is invented, lost or reordered. *)
+Theorem C09_failing_reader : forall s sc,
+  read_stream_x s sc = (fst (decode_stream s), xmap (snd (decode_stream s))).
+Proof. exact read_stream_x_spec. Qed.
+Example C09_failing_reader_example :
+  read_stream_x [129; 65; 130; 66] [(1%nat, false); (0%nat, false); (3%nat, true)] = ([[65]], XIo).
+Proof. vm_compute. reflexivity. Qed.
 
 (* The pinned code (one r.Read per prefix byte, count ignored) violated the round trip:
    regression witnesses, replayed on the Go code before the fix. *)
